@@ -1,6 +1,7 @@
 import NeoModel.Model.Wire.P256
 import NeoModel.Model.Wire.Item
 import NeoModel.Model.Wire.Mpt
+import NeoModel.Model.Wire.Nef
 /-
 Token text of model values (the Go harness prints the same text from the real values, show.go) and the
 parser of the same text (value -> bytes direction of the tie). Driver-side code: not used by any theorem.
@@ -148,7 +149,7 @@ def showItem : Item → Toks
   | .byteArray b => ["ba", hx b]
   | .buffer b => ["buf", hx b]
   | .bool b => [if b then "bool1" else "bool0"]
-  | .int v => ["int", toString v]
+  | .int c => ["int", toString (Item.intFromLE c)]
   | .array l => "arr" :: num l.length :: showItems l
   | .struct l => "struct" :: num l.length :: showItems l
   | .map m => "map" :: num m.length :: showPairs m
@@ -169,7 +170,7 @@ partial def pItem : P Item
   | "buf" :: r => (pHex r).map fun (b, r') => (.buffer b, r')
   | "bool0" :: r => some (.bool false, r)
   | "bool1" :: r => some (.bool true, r)
-  | "int" :: t :: r => t.toInt?.map fun v => (.int v, r)
+  | "int" :: t :: r => t.toInt?.map fun v => (.int (Item.intToLE v), r)
   | "arr" :: r => (pCounted pItem r).map fun (l, r') => (.array l, r')
   | "struct" :: r => (pCounted pItem r).map fun (l, r') => (.struct l, r')
   | "map" :: r => (pCounted (fun ts => (pItem ts).bind fun (k, r1) => (pItem r1).map fun (v, r2) => ((k, v), r2)) r).map
@@ -201,6 +202,23 @@ partial def pNode : P Node
   | "hash" :: r => (pHex r).map fun (h, r') => (.hash h, r')
   | "empty" :: r => some (.empty, r)
   | _ => none
+
+/-! NEF -/
+
+def showToken (t : MethodToken) : Toks :=
+  [hx t.hash, hx t.method, num t.paramCount, if t.hasReturn then "1" else "0", num t.callFlag.toNat]
+
+def showNef (n : Nef) : Toks :=
+  [hx n.body.compiler, hx n.body.source, num n.body.tokens.length] ++ (n.body.tokens.map showToken).flatten
+    ++ [hx n.body.script, num n.checksum]
+
+def pToken : P MethodToken := fun ts =>
+  (pHex ts).bind fun (h, r) => (pHex r).bind fun (m, r) => (pNum r).bind fun (pc, r) => (pNum r).bind fun (hr, r) =>
+    (pByte r).map fun (cf, r) => (⟨h, m, pc, hr != 0, cf⟩, r)
+
+def pNef : P Nef := fun ts =>
+  (pHex ts).bind fun (c, r) => (pHex r).bind fun (s, r) => (pCounted pToken r).bind fun (tk, r) =>
+    (pHex r).bind fun (scr, r) => (pNum r).map fun (cs, r) => (⟨⟨c, s, tk, scr⟩, cs⟩, r)
 
 end Text
 end NeoModel.Wire
